@@ -689,6 +689,47 @@ func (e *Engine) checkLocked(prop string) (checked int, violations []string) {
 				violations = append(violations, fmt.Sprintf("%s: no call to %s found (rule at %s no longer fits the code)", lr.Func, want, lr.Where))
 			}
 		}
+		// the critical section covers every access to the receiver's state: any instruction that uses the receiver (a field
+		// address other than the mutex itself, a method call on it, passing it on) must be covered by the lock as well
+		recv := ssa.Value(fn.Params[0])
+		for _, b := range fn.Blocks {
+			for i, ins := range b.Instrs {
+				if _, isDbg := ins.(*ssa.DebugRef); isDbg {
+					continue
+				}
+				uses := false
+				for _, op := range ins.Operands(nil) {
+					if op != nil && *op == recv {
+						uses = true
+					}
+				}
+				if !uses {
+					continue
+				}
+				if fa, ok := ins.(*ssa.FieldAddr); ok {
+					st := fa.X.Type().Underlying().(*types.Pointer).Elem().Underlying().(*types.Struct)
+					if st.Field(fa.Field).Name() == lr.Field {
+						continue
+					}
+				}
+				checked++
+				here := site{b, i}
+				ok2 := false
+				for _, l := range locks {
+					if before(l, here) {
+						ok2 = true
+					}
+				}
+				for _, u := range unlocks {
+					if !before(here, u) {
+						ok2 = false
+					}
+				}
+				if !ok2 {
+					violations = append(violations, fmt.Sprintf("%s: the receiver's state is accessed at %s outside the section protected by %s", lr.Func, e.fset.Position(ins.Pos()), lr.Field))
+				}
+			}
+		}
 	}
 	return
 }
